@@ -6,6 +6,7 @@ import impl_pyd  # noqa: F401
 from framework import Case
 
 PROP = "C17"
+GENERATED = ['DtypeTables']  # generated files this check's tie depends on
 LEAN_MODULES = ["Properties.C17"]
 RULE = (
     "corpus; seeded models of 1-4 fields (annotated tensor fields over the context dimension alphabet, optional fields, plain int fields; base "
